@@ -85,11 +85,13 @@ Definition c10r_ok (max : nat) (ifexp : N) (ops : list rqop) (outs : list oout) 
    The faithful model (Model/RQueue.v) is stepped together with the abstract queue; the first
    operation whose output the abstract queue rejects is classified by the situation it was
    issued in.  Each class is one open defect of persistence/queue/redis/redis.go.  (The classes
-   "length unknown after a restart" and "Add before the in-flight entries are replayed" were
-   repaired in /repo - 2a5e8fc, c77f89a - and are part of the oracle proper now.) *)
+   "length unknown after a restart", "Add before the in-flight entries are replayed" and
+   "ReadInflight(0): whole list at cursor 0 / in-flight entries declared drained at any other
+   cursor" were repaired in /repo - 2a5e8fc, c77f89a, 309d247 - and are part of the oracle proper
+   now.) *)
 Inductive rqclass :=
 | RQNone                      (* the whole trace is accepted *)
-| RQLrangeMinus1              (* Read with no ids / ReadInflight(0) at cursor 0: LRANGE 0 -1 reads the whole list *)
+| RQLrangeMinus1              (* Read with no ids at cursor 0: LRANGE 0 -1 reads the whole list *)
 | RQStaleCache                (* Remove of an id whose entry Add already sacrificed: counters and cursor move although nothing is removed *)
 | RQReplaceCursor0            (* Replace while the cursor is 0 inspects element 0 *)
 | RQOther.
@@ -100,7 +102,6 @@ Fixpoint blob_mem (b : blob) (l : list blob) : bool :=
 Definition rq_situation (s : rstore) (q : rq) (o : rqop) : rqclass :=
   match o with
   | ROp (ORead _ pids) => match pids with [] => if (rq_cur q =? 0)%Z then RQLrangeMinus1 else RQOther | _ => RQOther end
-  | ROp (OReadInflight _ n) => match n with O => if (rq_cur q =? 0)%Z then RQLrangeMinus1 else RQOther | _ => RQOther end
   | ROp (ORemove pid) =>
       match rq_cache q with
       | Some c => match cache_get pid c with
@@ -116,8 +117,8 @@ Definition rq_situation (s : rstore) (q : rq) (o : rqop) : rqclass :=
   | _ => RQOther
   end.
 
-(* `seen`: an LRANGE x..-1 (Read without ids / ReadInflight(0) at cursor 0) was already executed:
-   it may set the drained flag or hand out the whole list, and a later operation is rejected *)
+(* `seen`: an LRANGE 0 -1 (Read without ids at cursor 0) was already executed: it may hand out
+   the whole list, and a later operation is rejected *)
 Fixpoint rq_classify (s : rstore) (q : rq) (a : ast) (v5 : bool) (limit : N) (seen : bool) (ops : list rqop) : rqclass :=
   match ops with
   | [] => RQNone
